@@ -108,7 +108,7 @@ func checkC12() *CheckDef {
 	type bnd struct{ l, n, lc, free int }
 	bounds := func(tier string) bnd {
 		if tier == "thorough" {
-			return bnd{l: 4, n: 10, lc: 2, free: 2}
+			return bnd{l: 6, n: 12, lc: 3, free: 3}
 		}
 		return bnd{l: 3, n: 8, lc: 2, free: 2}
 	}
@@ -208,7 +208,7 @@ func checkC13base() *CheckDef {
 	type bnd struct{ n, depth, budget, k, bin int }
 	bounds := func(tier string) bnd {
 		if tier == "thorough" {
-			return bnd{n: 10, depth: 2, budget: 3, k: 1, bin: 1}
+			return bnd{n: 10, depth: 2, budget: 2, k: 1, bin: 1}
 		}
 		return bnd{n: 8, depth: 2, budget: 2, k: 1, bin: 1}
 	}
@@ -304,7 +304,7 @@ func checkC14() *CheckDef {
 func checkC14base() *CheckDef {
 	params := func(tier string) map[string]int {
 		if tier == "thorough" {
-			return map[string]int{"depth": 2, "budget": 3, "budget2": 2, "k": 2, "bin": 2}
+			return map[string]int{"depth": 2, "budget": 3, "budget2": 2, "k": 2, "bin": 1}
 		}
 		return map[string]int{"depth": 2, "budget": 3, "budget2": 2, "k": 2, "bin": 1}
 	}
@@ -489,7 +489,7 @@ func checkC17() *CheckDef {
 	}
 	bounds := func(tier string) bnd {
 		if tier == "thorough" {
-			return bnd{l: 5, plugins: 2, files: 2, probe: []int{10, 11, 12, 13}}
+			return bnd{l: 5, plugins: 2, files: 1, probe: []int{10, 11, 12}}
 		}
 		return bnd{l: 4, plugins: 2, files: 1, probe: []int{11}}
 	}
@@ -533,7 +533,7 @@ func checkC16() *CheckDef {
 	type bnd struct{ l, lf, free int }
 	bounds := func(tier string) bnd {
 		if tier == "thorough" {
-			return bnd{l: 3, lf: 4, free: 3}
+			return bnd{l: 4, lf: 6, free: 4}
 		}
 		return bnd{l: 2, lf: 2, free: 2}
 	}
@@ -566,11 +566,11 @@ func checkC16() *CheckDef {
 
 // ---- generated-code checks ----
 
-// genCorpus: the quick tier uses /verif/corpus; the thorough tier adds the
-// repository's own test schemas (as they are in the working tree).
-func genCorpus(tier string) []string {
+// genCorpus: /verif/corpus; C01's thorough tier adds the repository's own
+// test schemas (as they are in the working tree).
+func genCorpus(tier string, big bool) []string {
 	out := []string{filepath.Join(verifDir, "corpus", "vcore.thrift")}
-	if tier == "thorough" {
+	if tier == "thorough" && big {
 		for _, f := range []string{"structs", "containers", "unions", "enums", "typedefs", "exceptions", "services", "enum_conflict", "uuid_conflict", "set_to_slice", "stringdef"} {
 			out = append(out, filepath.Join(repoDir, "gen", "internal", "tests", "thrift", f+".thrift"))
 		}
@@ -580,7 +580,8 @@ func genCorpus(tier string) []string {
 
 func genPrepare(k, l int) func(c *CheckDef, tier string) (map[string][]byte, []string, func(), error) {
 	return func(c *CheckDef, tier string) (map[string][]byte, []string, func(), error) {
-		info, cleanup, err := prepareGenerated(genCorpus(tier), k, l)
+		// only C01 (cheap per type) adds the repository's own test schemas in the thorough tier
+		info, cleanup, err := prepareGenerated(genCorpus(tier, c.ID == "C01"), k, l)
 		if err != nil {
 			return nil, nil, nil, err
 		}
@@ -648,7 +649,7 @@ func checkC04() *CheckDef {
 	type bnd struct{ n, muts int }
 	bounds := func(tier string) bnd {
 		if tier == "thorough" {
-			return bnd{n: 8, muts: 2}
+			return bnd{n: 8, muts: 1}
 		}
 		return bnd{n: 6, muts: 1}
 	}
@@ -690,14 +691,18 @@ func checkC05() *CheckDef {
 		var out []*sym.HarnessConfig
 		for step := 0; step <= 4; step++ {
 			simple := 0
-			if step <= 1 && tier != "thorough" {
+			if step <= 1 {
 				simple = 1 // base values: every nilable field absent, or every one present
+			}
+			ends := simple
+			if tier == "thorough" {
+				ends = 0 // the unknown field at every boundary
 			}
 			nshapes := 0
 			if step == 1 && tier != "thorough" {
 				nshapes = 8 // the seven scalar shapes and list<i32>
 			}
-			out = append(out, genHarnesses(c, "gH05", map[string]int{"depth": 2, "step": step, "simple": simple, "ends": simple, "nshapes": nshapes}, 20000000)...)
+			out = append(out, genHarnesses(c, "gH05", map[string]int{"depth": 2, "step": step, "simple": simple, "ends": ends, "nshapes": nshapes}, 20000000)...)
 			if step == 0 {
 				// the unknown field in front, decoded from a stream whose first 4 reads are arbitrarily segmented
 				out = append(out, genHarnesses(c, "gH05", map[string]int{"depth": 2, "step": 0, "simple": 2, "ends": 2, "chunk": 4}, 20000000)...)
@@ -709,7 +714,7 @@ func checkC05() *CheckDef {
 	c.Bounds = func(tier string) map[string]interface{} {
 		return genBounds(c, map[string]interface{}{
 			"evolution_steps": "one step on the top-level struct: unknown field (symbolic id, 14 well-formed shapes, field boundaries; also decoded from a stream whose first 4 reads are arbitrarily segmented); declared field re-encoded with another wire type; declared field removed; fields reversed; a container field re-encoded as the same kind of container with another element type (read as absent by both paths)",
-			"value_shapes":    "as C01 (quick tier, steps with foreign values: base values with all nilable fields absent or all present; unknown field inserted at the first or last boundary)",
+			"value_shapes":    "as C01; steps with foreign values: base values with all nilable fields absent or all present; quick: unknown field at the first or last boundary and 8 of the 14 shapes for re-typing, thorough: every boundary, all shapes",
 			"outside":         "steps inside nested structs/containers; two or more steps",
 		})
 	}
